@@ -38,7 +38,8 @@ RefChecks(r) ==
   IF r.exc # "" THEN << <<"raises", FALSE>> >>
   ELSE LET C == Len(r.cands)
            num(c) == FSum([f \in 1..Len(r.items) |-> QuadS(r.items[f].phix, r.cands[c][f])[1][1]])
-           den(c) == FSum([f \in 1..Len(r.items) |-> QuadS(r.items[f].phin, r.cands[c][f])[1][1]])
+           \* the library's guard: the noise power is floored at the smallest normal double, so an all-zero candidate (0 / 0) has SNR 0
+           den(c) == FMax(FSum([f \in 1..Len(r.items) |-> QuadS(r.items[f].phin, r.cands[c][f])[1][1]]), FNorm(1, -1022))
            \* snr(a) > snr(b)  <=>  num(a) den(b) > num(b) den(a)   (denominators positive)
            better(a, b) == FLt(FMul(num(b), den(a)), FMul(num(a), den(b)))
            clearly(a, b) == FLt(FMul(FMul(num(b), den(a)), FAdd(FOne, FNorm(SLK * 8, -19))), FMul(num(a), den(b)))
